@@ -314,7 +314,10 @@ def opCcs (s : St) (ver : Nat) : St × List Event :=
   let (s, ev0) := ccsConfigure { s with addrs := ver }
   let (s, ev1) := updateAll s (ccsTargets s)
   if s.scRefs.isEmpty then
-    let (s, _, ev2) := addSubConn s
+    -- (re-)create the pool up to its minimum size (F26: a first update without addresses, whose attempts
+    -- all failed, must not leave the pool at one channel for ever)
+    let min := match s.cfg with | some c => c.min | none => 1
+    let (s, ev2) := enforceMinSize s min min
     (s, ev0 ++ ev1 ++ ev2 ++ [.res "ok"])
   else (s, ev0 ++ ev1 ++ [.res "ok"])
 
